@@ -2,7 +2,7 @@
    Directives: ExtrOcamlBasic only. *)
 Require Extraction.
 Require Import ExtrOcamlBasic.
-From OrdV Require Import Base.Prelude Index.Inscr.
+From OrdV Require Import Base.Prelude Index.Inscr Index.InscrEvents.
 Cd "../extract/gen".
-Extraction "x_inscr.ml" run_C03 run_C04 run_C05 run_C06 run_C07.
+Extraction "x_inscr.ml" run_inscr run_inscr_ev.
 Cd "../../coq".
